@@ -1,3 +1,2 @@
-// stubs.cc — placeholders for simulations not linked into this binary yet.
+// stubs.cc - every simulation is linked in; nothing left to stub.
 #include "sim.h"
-Sim *make_shared_sim() { return nullptr; }
